@@ -187,6 +187,7 @@ inductive Pure : Tree → Prop
   | ret (v : Int) : Pure (.ret v)
   | read (k : Key) (cont : Int → Tree) (h : ∀ x, Pure (cont x)) : Pure (.read k cont)
   | readC (c : Nat) (cont : Int → Tree) (h : ∀ x, Pure (cont x)) : Pure (.readC c cont)
+  | fail : Pure .fail
 
 /-- every Computable the function may read was defined before `b` (has a smaller index) -/
 inductive Ranked (b : Nat) : Tree → Prop
@@ -194,6 +195,7 @@ inductive Ranked (b : Nat) : Tree → Prop
   | read (k : Key) (cont : Int → Tree) (h : ∀ x, Ranked b (cont x)) : Ranked b (.read k cont)
   | readC (c : Nat) (cont : Int → Tree) (hc : c < b) (h : ∀ x, Ranked b (cont x)) : Ranked b (.readC c cont)
   | write (k : Key) (v : Int) (t : Tree) (h : Ranked b t) : Ranked b (.write k v t)
+  | fail : Ranked b .fail
 
 /-- the keys a function reads as plain Observables satisfy `ok` (they are not Computable slots) -/
 inductive ObsKeys (ok : Key → Prop) : Tree → Prop
@@ -201,6 +203,7 @@ inductive ObsKeys (ok : Key → Prop) : Tree → Prop
   | read (k : Key) (cont : Int → Tree) (hk : ok k) (h : ∀ x, ObsKeys ok (cont x)) : ObsKeys ok (.read k cont)
   | readC (c : Nat) (cont : Int → Tree) (h : ∀ x, ObsKeys ok (cont x)) : ObsKeys ok (.readC c cont)
   | write (k : Key) (v : Int) (t : Tree) (h : ObsKeys ok t) : ObsKeys ok (.write k v t)
+  | fail : ObsKeys ok .fail
 
 /-- `k` is the attribute slot of some defined Computable -/
 def St.isSlot (s : St) (k : Key) : Prop := ∃ c x, s.comps c = some x ∧ (x.owner, x.name) = k
@@ -276,6 +279,7 @@ theorem ObsKeys.mono {ok ok' : Key → Prop} (h : ∀ k, ok k → ok' k) {t : Tr
   | read k cont hk _ ih => exact .read k cont (h k hk) ih
   | readC c cont _ ih => exact .readC c cont ih
   | write k v t _ ih => exact .write k v t ih
+  | fail => exact .fail
 
 theorem StaticEq.kindAt {s s' : St} (a : StaticEq s s') (k : Key) : s'.kindAt k = s.kindAt k := by
   simp [St.kindAt, a.decls]
@@ -338,6 +342,20 @@ inductive PathR : Tree → List (PRef × Int) → Int → Prop
   | readC (c : Nat) (cont : Int → Tree) (x : Int) (ps : List (PRef × Int)) (v : Int) (h : PathR (cont x) ps v) :
       PathR (.readC c cont) ((.comp c, x) :: ps) v
 
+/-- the listed (reference, value) reads are an initial part of some way through the function -/
+inductive Prefix : Tree → List (PRef × Int) → Prop
+  | nil (t : Tree) : Prefix t []
+  | read (k : Key) (cont : Int → Tree) (x : Int) (ps : List (PRef × Int)) (h : Prefix (cont x) ps) :
+      Prefix (.read k cont) ((.obs k, x) :: ps)
+  | readC (c : Nat) (cont : Int → Tree) (x : Int) (ps : List (PRef × Int)) (h : Prefix (cont x) ps) :
+      Prefix (.readC c cont) ((.comp c, x) :: ps)
+
+theorem PathR.prefix {t : Tree} {ps : List (PRef × Int)} {v : Int} (h : PathR t ps v) : Prefix t ps := by
+  induction h with
+  | ret v => exact .nil _
+  | read k cont x ps v _ ih => exact .read k cont x ps ih
+  | readC c cont x ps v _ ih => exact .readC c cont x ps ih
+
 /-- the remembered value `v` of `p` is the present one (`P` = Computeds that were just marked dirty and whose
     own subscribers have not all been notified yet) -/
 def Current (P : Nat → Prop) (s : St) : PRef → Int → Prop
@@ -353,7 +371,7 @@ structure Inv (S P : Nat → Prop) (s : St) : Prop where
   stackDirty : ∀ c, S c → ∃ x, s.comps c = some x ∧ x.dirty = true
   curStack : ∀ p, s.cur = some p → S p
   evald : ∀ c x, s.comps c = some x → ¬ S c →
-    (x.first = true → x.dirty = true ∧ x.parents = []) ∧
+    (x.first = true → x.dirty = true ∧ ∃ ps, Prefix x.tree ps ∧ ∀ e, e ∈ ps ↔ e ∈ x.parents) ∧
     (x.first = false → ∃ v ps, x.value = some v ∧ PathR x.tree ps v ∧ ∀ e, e ∈ ps ↔ e ∈ x.parents)
   parents : ∀ c x, s.comps c = some x → ∀ p v, (p, v) ∈ x.parents →
     (∀ c', p = .comp c' → c' < c) ∧ (∀ k, p = .obs k → ¬ s.isSlot k) ∧ Subd s c p
@@ -377,7 +395,7 @@ theorem Current.of_eq {P : Nat → Prop} {s s' : St} (hst : s'.store = s.store)
 theorem Inv.update_comp {S P : Nat → Prop} {s : St} (inv : Inv S P s) {c : Nat} {x x' : Comp}
     (hx : s.comps c = some x) (ho : x'.owner = x.owner) (hn : x'.name = x.name)
     (hS : S c → x'.dirty = true)
-    (hev : ¬ S c → (x'.first = true → x'.dirty = true ∧ x'.parents = []) ∧
+    (hev : ¬ S c → (x'.first = true → x'.dirty = true ∧ ∃ ps, Prefix x'.tree ps ∧ ∀ e, e ∈ ps ↔ e ∈ x'.parents) ∧
       (x'.first = false → ∃ v ps, x'.value = some v ∧ PathR x'.tree ps v ∧ ∀ e, e ∈ ps ↔ e ∈ x'.parents))
     (ht : x'.tree = x.tree)
     (hpar : ∀ p v, (p, v) ∈ x'.parents → (∀ c', p = .comp c' → c' < c) ∧ (∀ k, p = .obs k → ¬ s.isSlot k) ∧ Subd s c p)
@@ -801,43 +819,137 @@ theorem notifyT_quiet {S P : Nat → Prop} (rec : Rec) (k : Key) (old new : Opti
     · simp [St.setReg, ho]
 
 
-theorem addParent_not_noneVal {s s' : St} (w : ∀ o, RegOK (s.regs o)) {p : Nat} {r : PRef} {v : Int} {e : Err}
-    (h : addParent s p r v = (s', .err e)) : R.err e ≠ .err .noneVal := by
-  unfold addParent at h
-  cases hk : s.keyOf r with
-  | none =>
-    simp only [hk] at h
-    injection h with _ h; injection h with h; subst h; simp
-  | some k =>
-    obtain ⟨o, n⟩ := k
-    cases hx : s.comps p with
-    | none =>
-      simp only [hk, hx] at h
-      injection h with _ h; injection h with h; subst h; simp
-    | some x =>
-      simp only [hk, hx] at h
-      rcases observe_one_all (w o) n (Sub.dirty p) with ⟨_, reg, ho, _⟩ | ⟨_, ho⟩
-      · simp only [ho] at h; injection h with _ h; cases h
-      · simp only [ho] at h
-        injection h with _ h; injection h with h; subst h; simp
+/-- a declared attribute is a name of its owner's registry -/
+theorem kindAt_names {s : St} {k : Key} {kd : Kind} (h : s.kindAt k = some kd) : k.2 ∈ (s.regs k.1).names := by
+  unfold St.kindAt at h
+  cases hf : (s.regs k.1).decls.find? (fun d => d.name == k.2) with
+  | none => simp [hf] at h
+  | some d =>
+    have hd := List.mem_of_find?_eq_some hf
+    have hn : d.name = k.2 := by simpa using List.find?_some hf
+    unfold Reg.names; exact List.mem_map.mpr ⟨d, hd, hn⟩
 
-/-- the remembered value differs from the present one (for a Computable: from its up-to-date value) -/
+/-- `_add_parent` on a declared attribute, called by a Computed that exists, does not raise -/
+theorem addParent_ok {s : St} (w : Stat s) {p : Nat} {x : Comp} (hx : s.comps p = some x) {r : PRef} {v : Int} {k : Key}
+    (hk : s.keyOf r = some k) (hn : k.2 ∈ (s.regs k.1).names) {s' : St} {e : Err}
+    (h : addParent s p r v = (s', .err e)) : False := by
+  unfold addParent at h
+  obtain ⟨o, n⟩ := k
+  simp only [hk, hx] at h
+  rcases observe_one_all (w.regs o) n (Sub.dirty p) with ⟨_, reg, ho, _⟩ | ⟨hnn, _⟩
+  · simp only [ho] at h; injection h with _ h; cases h
+  · exact hnn hn
+
+/-! ### what a function returns "if evaluated right now" -/
+
+/-- the denotation of a pure function in state `s`: Observables are looked up in the store, Computables are
+    evaluated by running *their* function (not by looking at any cache) -/
+inductive Den (s : St) : Tree → Int → Prop
+  | ret (v : Int) : Den s (.ret v) v
+  | read (k : Key) (cont : Int → Tree) (v : Int) (h : Den s (cont (s.store k)) v) : Den s (.read k cont) v
+  | readC (c : Nat) (cont : Int → Tree) (x : Comp) (a v : Int) (hx : s.comps c = some x) (ha : Den s x.tree a)
+      (h : Den s (cont a) v) : Den s (.readC c cont) v
+
+/-- … and "the function would raise if evaluated right now": it arrives at a `fail` node, or at the read of a
+    Computable whose function would raise -/
+inductive DenFail (s : St) : Tree → Prop
+  | fail : DenFail s .fail
+  | read (k : Key) (cont : Int → Tree) (h : DenFail s (cont (s.store k))) : DenFail s (.read k cont)
+  | readCFail (c : Nat) (cont : Int → Tree) (x : Comp) (hx : s.comps c = some x) (h : DenFail s x.tree) :
+      DenFail s (.readC c cont)
+  | readC (c : Nat) (cont : Int → Tree) (x : Comp) (a : Int) (hx : s.comps c = some x) (ha : Den s x.tree a)
+      (h : DenFail s (cont a)) : DenFail s (.readC c cont)
+  | readCUndef (c : Nat) (cont : Int → Tree) (hx : s.comps c = none) : DenFail s (.readC c cont)
+
+/-- both only look at the Observables' values and at the functions -/
+theorem Den.congr {s s' : St} (hst : s'.store = s.store) (hse : StaticEq s s') {t : Tree} {v : Int} (h : Den s t v) :
+    Den s' t v := by
+  induction h with
+  | ret v => exact .ret v
+  | read k cont v _ ih => refine .read k cont v ?_; rw [hst]; exact ih
+  | readC c cont x a v hx _ _ iha ih =>
+    obtain ⟨x', hx', _, _, ht⟩ := hse.defined hx
+    exact .readC c cont x' a v hx' (by rw [ht]; exact iha) ih
+
+theorem DenFail.congr {s s' : St} (hst : s'.store = s.store) (hse : StaticEq s s') {t : Tree} (h : DenFail s t) :
+    DenFail s' t := by
+  induction h with
+  | fail => exact .fail
+  | read k cont _ ih => refine .read k cont ?_; rw [hst]; exact ih
+  | readCFail c cont x hx _ ih =>
+    obtain ⟨x', hx', _, _, ht⟩ := hse.defined hx
+    exact .readCFail c cont x' hx' (by rw [ht]; exact ih)
+  | readC c cont x a hx ha _ ih =>
+    obtain ⟨x', hx', _, _, ht⟩ := hse.defined hx
+    exact .readC c cont x' a hx' (by rw [ht]; exact ha.congr hst hse) ih
+  | readCUndef c cont hx => exact .readCUndef c cont ((hse.comps c).1.mpr hx)
+
+theorem pathR_den {s : St} {t : Tree} {ps : List (PRef × Int)} {v : Int} (hp : PathR t ps v)
+    (hobs : ∀ k x, (PRef.obs k, x) ∈ ps → s.store k = x)
+    (hcomp : ∀ c x, (PRef.comp c, x) ∈ ps → ∃ y, s.comps c = some y ∧ Den s y.tree x) : Den s t v := by
+  induction hp with
+  | ret v => exact .ret v
+  | read k cont x ps v _ ih =>
+    have hx : s.store k = x := hobs k x (by simp)
+    subst hx
+    exact .read k cont v (ih (fun k' x' h' => hobs k' x' (by simp [h'])) (fun c x' h' => hcomp c x' (by simp [h'])))
+  | readC c cont x ps v _ ih =>
+    obtain ⟨y, hy, hd⟩ := hcomp c x (by simp)
+    exact .readC c cont y x v hy hd
+      (ih (fun k' x' h' => hobs k' x' (by simp [h'])) (fun c' x' h' => hcomp c' x' (by simp [h'])))
+
+/-- **a clean Computed holds the value its function would return now** (also while other Computeds are evaluating) -/
+theorem clean_den {S : Nat → Prop} {s : St} (inv : Inv S NoP s) :
+    ∀ c x, s.comps c = some x → x.dirty = false → ∃ v, x.value = some v ∧ Den s x.tree v := by
+  intro c
+  induction c using Nat.strongRecOn with
+  | _ c ih =>
+    intro x hx hd
+    have hS : ¬ S c := by
+      intro hS
+      obtain ⟨y, hy, hyd⟩ := inv.stackDirty c hS
+      rw [hx] at hy; cases hy; simp [hd] at hyd
+    obtain ⟨e1, e2⟩ := inv.evald c x hx hS
+    have hf : x.first = false := by
+      cases hxf : x.first with
+      | false => rfl
+      | true => have := (e1 hxf).1; simp [hd] at this
+    obtain ⟨v, ps, hv, hp, hmem⟩ := e2 hf
+    refine ⟨v, hv, pathR_den hp ?_ ?_⟩
+    · intro k a ha
+      exact inv.current c x hx hd (.obs k) a ((hmem _).mp ha)
+    · intro c' a ha
+      have hpar := (hmem _).mp ha
+      obtain ⟨y, hy, hyv, hyd⟩ := inv.current c x hx hd (.comp c') a hpar
+      have hlt : c' < c := (inv.parents c x hx (.comp c') a hpar).1 c' rfl
+      rcases hyd with hyd | hyd
+      · obtain ⟨v', hv', hden⟩ := ih c' hlt y hy hyd
+        rw [hyv] at hv'; cases hv'
+        exact ⟨y, hy, hden⟩
+      · exact absurd hyd (by simp [NoP])
+
+/-- the remembered value differs from the present one (for a Computable: from its up-to-date value, or its
+    function raises now) -/
 def Stale (s : St) : PRef × Int → Prop
   | (.obs k, v) => s.store k ≠ v
-  | (.comp c, v) => ∃ y, s.comps c = some y ∧ y.dirty = false ∧ y.value ≠ some v
+  | (.comp c, v) => ∃ y, s.comps c = some y ∧ ((y.dirty = false ∧ y.value ≠ some v) ∨ DenFail s y.tree)
 
-theorem Stale.keep {s s' : St} (hst : s'.store = s.store)
+theorem Stale.keep {s s' : St} (hst : s'.store = s.store) (hse : StaticEq s s')
     (hk : ∀ q x, s.comps q = some x → x.dirty = false → s'.comps q = some x) {e : PRef × Int} (h : Stale s e) :
     Stale s' e := by
   obtain ⟨p, v⟩ := e
   cases p with
   | obs k => simpa [Stale, hst] using h
   | comp c =>
-    obtain ⟨y, hy, hd, hv⟩ := h
-    exact ⟨y, hk c y hy hd, hd, hv⟩
+    obtain ⟨y, hy, hd⟩ := h
+    rcases hd with ⟨hd, hv⟩ | hf
+    · exact ⟨y, hk c y hy hd, Or.inl ⟨hd, hv⟩⟩
+    · obtain ⟨y', hy', _, _, ht⟩ := hse.defined hy
+      exact ⟨y', hy', Or.inr (by rw [ht]; exact hf.congr hst hse)⟩
 
 /-- why the function body of a Computed ran (or did not) between two states: at most once, and then only on
-    the first evaluation or because something it remembered differs from the present value -/
+    the first evaluation (also: the first one after an evaluation that raised) or because something it remembered
+    differs from the present value -/
 def Justified (x : Comp) (s' : St) (y : Comp) : Prop :=
   y.evals = x.evals ∨ (y.evals = x.evals + 1 ∧ x.dirty = true ∧ (x.first = true ∨ ∃ e ∈ x.parents, Stale s' e))
 
@@ -857,10 +969,25 @@ structure PostGet (S : Nat → Prop) (c : Nat) (s s' : St) (v : Int) : Prop wher
   curPar : ∀ p x, s.cur = some p → s.comps p = some x →
     ∃ own, s'.comps p = some { x with parents := insertParent own (.comp c) v x.parents }
 
+/-- … and when it raises: the function of `c` ran and raised, and would raise if evaluated now; `c` will run it again
+    on the next read; nothing else happened to the Computeds above `c` (the evaluating one registered nothing).
+    (Or `c` is not defined: `AttributeError`, nothing happened at all.) -/
+structure PostErr (S : Nat → Prop) (c : Nat) (s s' : St) : Prop where
+  inv : Inv S NoP s'
+  stat : StaticEq s s'
+  store : s'.store = s.store
+  cur : s'.cur = s.cur
+  dead : s'.dead = s.dead
+  failed : s.comps c = none ∨ ∃ y, s'.comps c = some y ∧ y.first = true ∧ y.dirty = true ∧ DenFail s' y.tree ∧
+    ∀ x, s.comps c = some x → Justified x s' y
+  keepClean : ∀ q x, s.comps q = some x → x.dirty = false → s'.comps q = some x
+  above : ∀ q, c < q → s'.comps q = s.comps q
+
 /-- the induction hypothesis about the recursive calls -/
 structure IH (rec : Rec) : Prop where
   get : ∀ (c : Nat) (s s' : St) (r : R) (S : Nat → Prop), Stat s → Inv S NoP s → ¬ S c → (∀ q, S q → c < q) →
-    rec (.readC c) s = some (s', r) → (∀ v, r = .ok v → PostGet S c s s' v) ∧ r ≠ .err .noneVal
+    rec (.readC c) s = some (s', r) →
+    (∀ v, r = .ok v → PostGet S c s s' v) ∧ (∀ e, r = .err e → PostErr S c s s')
   notify : ∀ k o n s, rec (.notify k o n) s = none ∨ ∃ rec', rec (.notify k o n) s = notifyT rec' k o n s
 
 theorem Current.keep {s s' : St} (hst : s'.store = s.store)
@@ -872,29 +999,43 @@ theorem Current.keep {s s' : St} (hst : s'.store = s.store)
   · exact ⟨y, hk c y hy hd, hw, Or.inl hd⟩
   · exact absurd hd (by simp [NoP])
 
-/-- the function body of Computed `c` (a pure tree), evaluated with `CURRENT_COMPUTED = c` -/
+/-- what a function reads as a plain Observable is not the slot of a Computable -/
+theorem Stat.notSlot {s : St} (w : Stat s) {k : Key} (hk : s.kindAt k = some .obs) : ¬ s.isSlot k := by
+  rintro ⟨c', x', hx', rfl⟩
+  rw [w.slotKind c' x' hx'] at hk; cases hk
+
+/-- the function body of Computed `c` (a pure tree), evaluated with `CURRENT_COMPUTED = c`: whether it returns or
+    raises, `ps` = what it read on the way -/
 theorem evalTree_spec {rec : Rec} (ih : IH rec) (c : Nat) (S : Nat → Prop) (hSc : ¬ S c) (hSlt : ∀ q, S q → c < q) :
     ∀ (t : Tree), Pure t → ∀ (s s' : St) (r : R) (x : Comp) (ps0 : List (PRef × Int)),
-    Ranked c t → ObsKeys (fun k => ¬ s.isSlot k) t → Stat s → Inv (fun q => S q ∨ q = c) NoP s →
+    Ranked c t → ObsKeys (fun k => s.kindAt k = some .obs) t → Stat s → Inv (fun q => S q ∨ q = c) NoP s →
     s.cur = some c → s.comps c = some x → (∀ e, e ∈ ps0 ↔ e ∈ x.parents) →
     (∀ e ∈ ps0, Current NoP s e.1 e.2) → evalTree rec t s = some (s', r) →
-    (∀ v, r = .ok v → ∃ ps x', PathR t ps v ∧ Inv (fun q => S q ∨ q = c) NoP s' ∧ StaticEq s s' ∧
+    ∃ ps x', Inv (fun q => S q ∨ q = c) NoP s' ∧ StaticEq s s' ∧
       s'.store = s.store ∧ s'.cur = s.cur ∧ s'.dead = s.dead ∧
       (∀ q y, s.comps q = some y → y.dirty = false → s'.comps q = some y) ∧
       (∀ q, c < q → s'.comps q = s.comps q) ∧
       s'.comps c = some x' ∧ x' = { x with parents := x'.parents } ∧
-      (∀ e, e ∈ ps0 ++ ps ↔ e ∈ x'.parents) ∧ (∀ e ∈ ps0 ++ ps, Current NoP s' e.1 e.2)) ∧
-    r ≠ .err .noneVal := by
+      (∀ e, e ∈ ps0 ++ ps ↔ e ∈ x'.parents) ∧
+      (∀ v, r = .ok v → PathR t ps v ∧ ∀ e ∈ ps0 ++ ps, Current NoP s' e.1 e.2) ∧
+      (∀ e, r = .err e → Prefix t ps ∧ DenFail s' t) := by
   intro t pt
   induction pt with
   | ret v0 =>
     intro s s' r x ps0 _ _ _ inv hcur hx hps hcurr h
     simp only [evalTree] at h
     injection h with h; injection h with h1 h2; subst h1 h2
-    refine ⟨fun v hv => ?_, by simp⟩
+    refine ⟨[], x, inv, StaticEq.refl s, rfl, rfl, rfl, fun _ _ h _ => h, fun _ _ => rfl, hx, rfl,
+      by simpa using hps, fun v hv => ?_, fun e he => by cases he⟩
     injection hv with hv; subst hv
-    exact ⟨[], x, .ret _, inv, StaticEq.refl s, rfl, rfl, rfl, fun _ _ h _ => h, fun _ _ => rfl, hx, rfl,
-      by simpa using hps, by simpa using hcurr⟩
+    exact ⟨.ret _, by simpa using hcurr⟩
+  | fail =>
+    intro s s' r x ps0 _ _ _ inv hcur hx hps hcurr h
+    simp only [evalTree] at h
+    injection h with h; injection h with h1 h2; subst h1 h2
+    refine ⟨[], x, inv, StaticEq.refl s, rfl, rfl, rfl, fun _ _ h _ => h, fun _ _ => rfl, hx, rfl,
+      by simpa using hps, fun v hv => (by cases hv), fun e he => ?_⟩
+    exact ⟨.nil _, .fail⟩
   | read k cont _ ihc =>
     intro s s' r x ps0 hr ho w inv hcur hx hps hcurr h
     cases hr with | read _ _ hr =>
@@ -903,16 +1044,13 @@ theorem evalTree_spec {rec : Rec} (ih : IH rec) (c : Nat) (S : Nat → Prop) (hS
     cases ha : addParent s c (.obs k) (s.store k) with | mk s1 r1 =>
     rw [ha] at h
     cases r1 with
-    | err e =>
-      simp only at h
-      injection h with h; injection h with h1 h2; subst h1 h2
-      refine ⟨fun v hv => (by cases hv), ?_⟩
-      exact addParent_not_noneVal w.regs ha
+    | err e => exact (addParent_ok w hx (r := .obs k) rfl (kindAt_names hk) ha).elim
     | ok u =>
       simp only at h
       have hSc' : (fun q => S q ∨ q = c) c := Or.inr rfl
       obtain ⟨inv1, se1, hst1, hcur1, hdead1, hoth1, hc1⟩ :=
-        addParent_spec w inv hSc' hx (r := .obs k) (fun c' hc' => by cases hc') (fun k' hk' => by cases hk'; exact hk) ha
+        addParent_spec w inv hSc' hx (r := .obs k) (fun c' hc' => by cases hc')
+          (fun k' hk' => by cases hk'; exact w.notSlot hk) ha
       have hxd : x.dirty = true := by
         obtain ⟨y, hy, hd⟩ := inv.stackDirty c hSc'
         rw [hx] at hy; cases hy; exact hd
@@ -928,10 +1066,11 @@ theorem evalTree_spec {rec : Rec} (ih : IH rec) (c : Nat) (S : Nat → Prop) (hS
         intro q y hy hd
         have : q ≠ c := by intro e; subst e; rw [hx] at hy; cases hy; simp [hxd] at hd
         rw [hoth1 q this]; exact hy
-      obtain ⟨hok, hnn⟩ := ihc (s.store k) { s1 with proc := k :: s1.proc } s' r
+      obtain ⟨ps, x', inv', se', hst', hcur', hdead', hk', hab', hc', hx', hmem', hokp, herrp⟩ :=
+        ihc (s.store k) { s1 with proc := k :: s1.proc } s' r
         { x with parents := insertParent s.ownerOf (.obs k) (s.store k) x.parents }
         (ps0 ++ [(.obs k, s.store k)]) (hr _)
-        ((ho _).mono fun k' hk' hs => hk' ((se1'.isSlot k').mp hs)) (w.of_staticEq se1') inv1'
+        ((ho _).mono fun k' hk' => by rw [se1'.kindAt]; exact hk') (w.of_staticEq se1') inv1'
         (by simpa using hcur1.trans hcur) hc1
         (fun e => by
           rw [mem_insertParent_consistent _ _ _ _ hcons, List.mem_append, List.mem_singleton, hps e]
@@ -943,17 +1082,20 @@ theorem evalTree_spec {rec : Rec} (ih : IH rec) (c : Nat) (S : Nat → Prop) (hS
             show s1.store k = s.store k
             rw [hst1])
         h
-      refine ⟨fun v hv => ?_, hnn⟩
-      obtain ⟨ps, x', hp, inv', se', hst', hcur', hdead', hk', hab', hc', hx', hmem', hcurr'⟩ := hok v hv
-      refine ⟨(.obs k, s.store k) :: ps, x', .read k cont _ ps v hp, inv', se1'.trans se', hst'.trans hst1,
-        hcur'.trans hcur1, hdead'.trans hdead1, ?_, ?_, hc', ?_, ?_, ?_⟩
+      have hst'' : s'.store = s.store := hst'.trans hst1
+      refine ⟨(.obs k, s.store k) :: ps, x', inv', se1'.trans se', hst'', hcur'.trans hcur1, hdead'.trans hdead1,
+        ?_, ?_, hc', ?_, ?_, fun v hv => ?_, fun e he => ?_⟩
       · intro q y hy hd; exact hk' q y (hkeep1 q y hy hd) hd
       · intro q hq
         rw [hab' q hq]
         exact hoth1 q (by omega)
       · rw [hx']
       · intro e; rw [← hmem' e]; simp [List.append_assoc]
-      · intro e he; exact hcurr' e (by simpa [List.append_assoc] using he)
+      · obtain ⟨hp, hcurr'⟩ := hokp v hv
+        exact ⟨.read k cont _ ps v hp, fun e he => hcurr' e (by simpa [List.append_assoc] using he)⟩
+      · obtain ⟨hpre, hdf⟩ := herrp e he
+        refine ⟨.read k cont _ ps hpre, .read k cont ?_⟩
+        rw [hst'']; exact hdf
   | readC c' cont _ ihc =>
     intro s s' r x ps0 hr ho w inv hcur hx hps hcurr h
     cases hr with | readC _ _ hlt hr =>
@@ -971,13 +1113,19 @@ theorem evalTree_spec {rec : Rec} (ih : IH rec) (c : Nat) (S : Nat → Prop) (hS
         rintro q (h' | h')
         · have := hSlt q h'; omega
         · omega
-      obtain ⟨hpost, hnn1⟩ := ih.get c' s s1 r1 _ w inv hS' hSlt' hg
+      obtain ⟨hpost, hperr⟩ := ih.get c' s s1 r1 _ w inv hS' hSlt' hg
       rw [hg] at h
       cases r1 with
       | err e =>
         simp only at h
         injection h with h; injection h with h1 h2; subst h1 h2
-        exact ⟨fun v hv => (by cases hv), hnn1⟩
+        have pe := hperr e rfl
+        refine ⟨[], x, pe.inv, pe.stat, pe.store, pe.cur, pe.dead, pe.keepClean, fun q hq => pe.above q (by omega),
+          by rw [pe.above c hlt]; exact hx, rfl, by simpa using hps, fun v hv => (by cases hv), fun e' he' => ?_⟩
+        refine ⟨.nil _, ?_⟩
+        rcases pe.failed with hnone | ⟨y, hy, _, _, hdf, _⟩
+        · exact .readCUndef c' cont ((pe.stat.comps c').1.mpr hnone)
+        · exact .readCFail c' cont y hy hdf
       | ok v1 =>
         simp only at h
         have pg := hpost v1 rfl
@@ -993,9 +1141,10 @@ theorem evalTree_spec {rec : Rec} (ih : IH rec) (c : Nat) (S : Nat → Prop) (hS
             rw [hy1] at this; cases this
             rw [hyv] at hyv1; cases hyv1; rfl
           · exact absurd hyd (by simp [NoP])
-        obtain ⟨hok, hnn⟩ := ihc v1 s1 s' r { x with parents := insertParent own (.comp c') v1 x.parents }
+        obtain ⟨ps, x', inv', se', hst', hcur', hdead', hk', hab', hc', hx', hmem', hokp, herrp⟩ :=
+          ihc v1 s1 s' r { x with parents := insertParent own (.comp c') v1 x.parents }
           (ps0 ++ [(.comp c', v1)]) (hr _)
-          ((ho _).mono fun k' hk' hs => hk' ((pg.stat.isSlot k').mp hs)) (w.of_staticEq pg.stat) pg.inv
+          ((ho _).mono fun k' hk' => by rw [pg.stat.kindAt]; exact hk') (w.of_staticEq pg.stat) pg.inv
           (pg.cur.trans hcur) hc1
           (fun e => by
             rw [mem_insertParent_consistent _ _ _ _ hcons, List.mem_append, List.mem_singleton, hps e]
@@ -1006,42 +1155,43 @@ theorem evalTree_spec {rec : Rec} (ih : IH rec) (c : Nat) (S : Nat → Prop) (hS
             · simp only [List.mem_singleton] at he; subst he
               exact ⟨y1, hy1, hyv1, Or.inl hyd1⟩)
           h
-        refine ⟨fun v hv => ?_, hnn⟩
-        obtain ⟨ps, x', hp, inv', se', hst', hcur', hdead', hk', hab', hc', hx', hmem', hcurr'⟩ := hok v hv
-        refine ⟨(.comp c', v1) :: ps, x', .readC c' cont _ ps v hp, inv', pg.stat.trans se', hst'.trans pg.store,
-          hcur'.trans pg.cur, hdead'.trans pg.dead, ?_, ?_, hc', ?_, ?_, ?_⟩
+        refine ⟨(.comp c', v1) :: ps, x', inv', pg.stat.trans se', hst'.trans pg.store,
+          hcur'.trans pg.cur, hdead'.trans pg.dead, ?_, ?_, hc', ?_, ?_, fun v hv => ?_, fun e he => ?_⟩
         · intro q y hy hd; exact hk' q y (pg.keepClean q y hy hd) hd
         · intro q hq
           rw [hab' q hq]
           exact pg.above q (by omega) (by rw [hcur]; intro e; injection e with e; omega)
         · rw [hx']
         · intro e; rw [← hmem' e]; simp [List.append_assoc]
-        · intro e he; exact hcurr' e (by simpa [List.append_assoc] using he)
+        · obtain ⟨hp, hcurr'⟩ := hokp v hv
+          exact ⟨.readC c' cont _ ps v hp, fun e he => hcurr' e (by simpa [List.append_assoc] using he)⟩
+        · obtain ⟨hpre, hdf⟩ := herrp e he
+          obtain ⟨v', hv', hden⟩ := clean_den pg.inv c' y1 hy1 hyd1
+          rw [hyv1] at hv'; cases hv'
+          obtain ⟨y', hy', _, _, ht⟩ := se'.defined hy1
+          exact ⟨.readC c' cont _ ps hpre,
+            .readC c' cont y' v1 hy' (by rw [ht]; exact hden.congr hst' se') hdf⟩
 
-
-/-- the dirty pre-check of Computed `c` over its remembered parents `ps` -/
+/-- the dirty pre-check of Computed `c` over its remembered parents `ps`: it never raises (G12 repaired) -/
 theorem precheck_spec {rec : Rec} (ih : IH rec) (c : Nat) (S : Nat → Prop) (hSlt : ∀ q, S q → c < q) :
     ∀ (ps : List (PRef × Int)) (s s' : St) (r : Except Err Bool),
-    (∀ e ∈ ps, ∀ c', e.1 = .comp c' → c' < c) → Stat s → Inv S NoP s → s.cur = none →
+    (∀ e ∈ ps, (∀ c', e.1 = .comp c' → c' < c) ∧ ∃ k, s.keyOf e.1 = some k) → Stat s → Inv S NoP s → s.cur = none →
     precheck rec ps s = some (s', r) →
-    (∀ b, r = .ok b → Inv S NoP s' ∧ StaticEq s s' ∧ s'.store = s.store ∧ s'.cur = none ∧ s'.dead = s.dead ∧
+    ∃ b, r = .ok b ∧ Inv S NoP s' ∧ StaticEq s s' ∧ s'.store = s.store ∧ s'.cur = none ∧ s'.dead = s.dead ∧
       (∀ q y, s.comps q = some y → y.dirty = false → s'.comps q = some y) ∧
       (∀ q, c ≤ q → s'.comps q = s.comps q) ∧
       (b = false → ∀ e ∈ ps, Current NoP s' e.1 e.2) ∧
-      (b = true → ∃ e ∈ ps, Stale s' e)) ∧
-    r ≠ .error .noneVal := by
+      (b = true → ∃ e ∈ ps, Stale s' e) := by
   intro ps
   induction ps with
   | nil =>
     intro s s' r _ _ inv hcur h
     simp only [precheck] at h
     injection h with h; injection h with h1 h2; subst h1 h2
-    refine ⟨fun b hb => ?_, by simp⟩
-    injection hb with hb; subst hb
-    exact ⟨inv, StaticEq.refl s, rfl, hcur, rfl, fun _ _ h _ => h, fun _ _ => rfl, fun _ e he => (by simp at he),
-      fun h => (by cases h)⟩
+    exact ⟨false, rfl, inv, StaticEq.refl s, rfl, hcur, rfl, fun _ _ h _ => h, fun _ _ => rfl,
+      fun _ e he => (by simp at he), fun h => (by cases h)⟩
   | cons e ps ihp =>
-    intro s s' r hrank w inv hcur h
+    intro s s' r hpar w inv hcur h
     obtain ⟨p, v⟩ := e
     cases p with
     | obs k =>
@@ -1049,15 +1199,11 @@ theorem precheck_spec {rec : Rec} (ih : IH rec) (c : Nat) (S : Nat → Prop) (hS
       by_cases hne : s.store k ≠ v
       · rw [if_pos hne] at h
         injection h with h; injection h with h1 h2; subst h1 h2
-        refine ⟨fun b hb => ?_, by simp⟩
-        injection hb with hb; subst hb
-        exact ⟨inv, StaticEq.refl s, rfl, hcur, rfl, fun _ _ h _ => h, fun _ _ => rfl, fun h => (by cases h),
+        exact ⟨true, rfl, inv, StaticEq.refl s, rfl, hcur, rfl, fun _ _ h _ => h, fun _ _ => rfl, fun h => (by cases h),
           fun _ => ⟨(.obs k, v), by simp, hne⟩⟩
       · rw [if_neg hne] at h
-        obtain ⟨hok, hnn⟩ := ihp s s' r (fun e he => hrank e (by simp [he])) w inv hcur h
-        refine ⟨fun b hb => ?_, hnn⟩
-        obtain ⟨i1, i2, i3, i4, i5, i6, i7, i8, i9⟩ := hok b hb
-        refine ⟨i1, i2, i3, i4, i5, i6, i7, fun hb' e he => ?_, fun hb' => ?_⟩
+        obtain ⟨b, hb, i1, i2, i3, i4, i5, i6, i7, i8, i9⟩ := ihp s s' r (fun e he => hpar e (by simp [he])) w inv hcur h
+        refine ⟨b, hb, i1, i2, i3, i4, i5, i6, i7, fun hb' e he => ?_, fun hb' => ?_⟩
         · rcases List.mem_cons.mp he with rfl | he
           · show s'.store k = v
             rw [i3]; exact Decidable.not_not.mp hne
@@ -1065,7 +1211,7 @@ theorem precheck_spec {rec : Rec} (ih : IH rec) (c : Nat) (S : Nat → Prop) (hS
         · obtain ⟨e, he, hs⟩ := i9 hb'
           exact ⟨e, by simp [he], hs⟩
     | comp c4 =>
-      have hc4 : c4 < c := hrank (.comp c4, v) (by simp) c4 rfl
+      have hc4 : c4 < c := (hpar (.comp c4, v) (by simp)).1 c4 rfl
       simp only [precheck] at h
       cases hg : rec (.readC c4) s with
       | none => simp [hg] at h
@@ -1073,16 +1219,26 @@ theorem precheck_spec {rec : Rec} (ih : IH rec) (c : Nat) (S : Nat → Prop) (hS
         obtain ⟨s1, r1⟩ := res
         have hS4 : ¬ S c4 := fun h' => by have := hSlt c4 h'; omega
         have hSlt4 : ∀ q, S q → c4 < q := fun q h' => by have := hSlt q h'; omega
-        obtain ⟨hpost, hnn1⟩ := ih.get c4 s s1 r1 S w inv hS4 hSlt4 hg
+        obtain ⟨hpost, hperr⟩ := ih.get c4 s s1 r1 S w inv hS4 hSlt4 hg
         rw [hg] at h
         cases r1 with
         | err e =>
-          cases e with
-          | noneVal => exact absurd rfl hnn1
-          | _ =>
-            simp only at h
-            injection h with h; injection h with h1 h2; subst h1 h2
-            exact ⟨fun b hb => (by cases hb), by simp⟩
+          -- the remembered Computable raises now: that counts as "changed"
+          simp only at h
+          injection h with h; injection h with h1 h2; subst h1 h2
+          have pe := hperr e rfl
+          have hdef4 : ∃ y4, s.comps c4 = some y4 := by
+            obtain ⟨_, k, hk⟩ := hpar (.comp c4, v) (by simp)
+            simp only [St.keyOf] at hk
+            cases h4 : s.comps c4 with
+            | none => simp [h4] at hk
+            | some y4 => exact ⟨y4, rfl⟩
+          obtain ⟨y4, hy4⟩ := hdef4
+          rcases pe.failed with hnone | ⟨y, hy, _, _, hdf, _⟩
+          · rw [hy4] at hnone; cases hnone
+          exact ⟨true, rfl, pe.inv, pe.stat, pe.store, pe.cur.trans hcur, pe.dead, pe.keepClean,
+            fun q hq => pe.above q (by omega), fun h => (by cases h),
+            fun _ => ⟨(.comp c4, v), by simp, y, hy, Or.inr hdf⟩⟩
         | ok v' =>
           simp only at h
           have pg := hpost v' rfl
@@ -1091,19 +1247,17 @@ theorem precheck_spec {rec : Rec} (ih : IH rec) (c : Nat) (S : Nat → Prop) (hS
           by_cases hne : v' ≠ v
           · rw [if_pos hne] at h
             injection h with h; injection h with h1 h2; subst h1 h2
-            refine ⟨fun b hb => ?_, by simp⟩
-            injection hb with hb; subst hb
             obtain ⟨y, hy, hyd, hyv, _⟩ := pg.clean
-            refine ⟨pg.inv, pg.stat, pg.store, pg.cur.trans hcur, pg.dead, pg.keepClean, hab, fun h => (by cases h),
-              fun _ => ⟨(.comp c4, v), by simp, y, hy, hyd, ?_⟩⟩
+            refine ⟨true, rfl, pg.inv, pg.stat, pg.store, pg.cur.trans hcur, pg.dead, pg.keepClean, hab, fun h => (by cases h),
+              fun _ => ⟨(.comp c4, v), by simp, y, hy, Or.inl ⟨hyd, ?_⟩⟩⟩
             rw [hyv]; intro e; injection e with e; exact hne e
           · rw [if_neg hne] at h
             have hveq : v' = v := Decidable.not_not.mp hne
-            obtain ⟨hok, hnn⟩ := ihp s1 s' r (fun e he => hrank e (by simp [he])) (w.of_staticEq pg.stat) pg.inv
-              (pg.cur.trans hcur) h
-            refine ⟨fun b hb => ?_, hnn⟩
-            obtain ⟨i1, i2, i3, i4, i5, i6, i7, i8, i9⟩ := hok b hb
-            refine ⟨i1, pg.stat.trans i2, i3.trans pg.store, i4, i5.trans pg.dead,
+            obtain ⟨b, hb, i1, i2, i3, i4, i5, i6, i7, i8, i9⟩ :=
+              ihp s1 s' r (fun e he => by
+                obtain ⟨h1, k, hk⟩ := hpar e (by simp [he])
+                exact ⟨h1, k, by rw [pg.stat.keyOf]; exact hk⟩) (w.of_staticEq pg.stat) pg.inv (pg.cur.trans hcur) h
+            refine ⟨b, hb, i1, pg.stat.trans i2, i3.trans pg.store, i4, i5.trans pg.dead,
               fun q y hy hd => i6 q y (pg.keepClean q y hy hd) hd, fun q hq => (i7 q hq).trans (hab q hq),
               fun hb' e he => ?_, fun hb' => ?_⟩
             · rcases List.mem_cons.mp he with rfl | he
@@ -1203,16 +1357,89 @@ theorem Inv.finish {S : Nat → Prop} {s : St} {c : Nat} {x : Comp} {v : Int} {p
       exact hcur' p0 v0 hc0 hne
 
 
+/-- the function of the evaluated Computed `c` raised: `c` will run it again next time (`_first = True`), stays dirty and
+    leaves the stack; what it read before the failure stays remembered (and subscribed) until then -/
+theorem Inv.fail {S : Nat → Prop} {s : St} {c : Nat} {x : Comp} {ps : List (PRef × Int)}
+    {saved : Option Nat} (inv : Inv (fun q => S q ∨ q = c) NoP s) (hSc : ¬ S c) (hx : s.comps c = some x)
+    (hp : Prefix x.tree ps) (hmem : ∀ e, e ∈ ps ↔ e ∈ x.parents) (hsaved : ∀ p, saved = some p → S p) :
+    Inv S NoP { (s.setComp c { x with first := true }) with cur := saved } := by
+  have hxd : x.dirty = true := by
+    obtain ⟨y, hy, hd⟩ := inv.stackDirty c (Or.inr rfl)
+    rw [hx] at hy; cases hy; exact hd
+  have se : StaticEq s (s.setComp c { x with first := true }) := StaticEq.of_setComp hx rfl rfl rfl
+  have hkey := se.keyOf
+  have hsl := se.isSlot
+  have hsubd : ∀ q p0, Subd s q p0 → Subd { (s.setComp c { x with first := true }) with cur := saved } q p0 := by
+    intro q p0 ⟨k, h1, h2, h3⟩
+    exact ⟨k, by rw [← hkey] at h1; exact h1, h2, h3⟩
+  have hcomps : ∀ q, q ≠ c → ∀ y, ({ (s.setComp c { x with first := true }) with cur := saved } : St).comps q = some y →
+      s.comps q = some y := by
+    intro q hq y hy
+    have : (s.setComp c { x with first := true }).comps q = some y := hy
+    rwa [setComp_ne _ _ hq] at this
+  have hself : ∀ y, ({ (s.setComp c { x with first := true }) with cur := saved } : St).comps c = some y →
+      y = { x with first := true } := by
+    intro y hy
+    have : (s.setComp c { x with first := true }).comps c = some y := hy
+    rw [setComp_same] at this; cases this; rfl
+  refine ⟨?_, hsaved, ?_, ?_, ?_, ?_⟩
+  · intro q hq
+    have : q ≠ c := fun e => hSc (e ▸ hq)
+    show ∃ y, (s.setComp c _).comps q = some y ∧ _
+    rw [setComp_ne _ _ this]; exact inv.stackDirty q (Or.inl hq)
+  · intro q y hy hq
+    by_cases h : q = c
+    · subst h
+      have := hself y hy; subst this
+      exact ⟨fun _ => ⟨hxd, ps, hp, hmem⟩, fun h' => by simp at h'⟩
+    · exact inv.evald q y (hcomps q h y hy) (by rintro (h' | h'); exact hq h'; exact h h')
+  · intro q y hy p0 v0 hp0
+    by_cases h : q = c
+    · subst h
+      have := hself y hy; subst this
+      obtain ⟨h1, h2, h3⟩ := inv.parents q x hx p0 v0 hp0
+      exact ⟨h1, fun k hk hs => h2 k hk ((hsl k).mp hs), hsubd q p0 h3⟩
+    · obtain ⟨h1, h2, h3⟩ := inv.parents q y (hcomps q h y hy) p0 v0 hp0
+      exact ⟨h1, fun k hk hs => h2 k hk ((hsl k).mp hs), hsubd q p0 h3⟩
+  · intro o n t q hq
+    obtain ⟨ht, y, hy, p0, v0, hp0, hk0⟩ := inv.subsOf o n t q hq
+    refine ⟨ht, ?_⟩
+    by_cases h : q = c
+    · subst h
+      rw [hx] at hy; cases hy
+      exact ⟨_, setComp_same _ _ _, p0, v0, hp0, by rw [← hkey] at hk0; exact hk0⟩
+    · exact ⟨y, by show (s.setComp c _).comps q = some y; rw [setComp_ne _ _ h]; exact hy, p0, v0, hp0,
+        by rw [← hkey] at hk0; exact hk0⟩
+  · intro q y hy hd p0 v0 hp0
+    by_cases h : q = c
+    · subst h
+      have := hself y hy; subst this
+      simp [hxd] at hd
+    · have hy' := hcomps q h y hy
+      have hc0 := inv.current q y hy' hd p0 v0 hp0
+      cases p0 with
+      | obs k => exact hc0
+      | comp c' =>
+        obtain ⟨z, hz, hzv, hzd⟩ := hc0
+        have hne : c' ≠ c := by
+          intro e; subst e
+          rw [hx] at hz; cases hz
+          rcases hzd with hzd | hzd
+          · simp [hxd] at hzd
+          · exact hzd
+        exact ⟨z, by show (s.setComp c _).comps c' = some z; rw [setComp_ne _ _ hne]; exact hz, hzv, hzd⟩
+
 /-- the re-evaluation branch of `Computed.__call__` for the (already stacked) Computed `c` -/
 theorem evalBody_spec {rec : Rec} (ih : IH rec) (c : Nat) (S : Nat → Prop) (hSc : ¬ S c) (hSlt : ∀ q, S q → c < q)
     {s1 s' : St} {r : R} {x : Comp} {saved : Option Nat} (w : Stat s1)
     (inv : Inv (fun q => S q ∨ q = c) NoP s1) (hx : s1.comps c = some x) (hfirst : x.first = false)
     (hsaved : ∀ p, saved = some p → S p) (h : evalBody rec c x.tree saved s1 = some (s', r)) :
-    (∀ v, r = .ok v → Inv S NoP s' ∧ StaticEq s1 s' ∧ s'.store = s1.store ∧ s'.cur = saved ∧ s'.dead = s1.dead ∧
-      (∃ y, s'.comps c = some y ∧ y.dirty = false ∧ y.value = some v ∧ y.evals = x.evals + 1) ∧
-      (∀ q y, s1.comps q = some y → y.dirty = false → s'.comps q = some y) ∧
-      (∀ q, c < q → s'.comps q = s1.comps q)) ∧
-    r ≠ .err .noneVal := by
+    Inv S NoP s' ∧ StaticEq s1 s' ∧ s'.store = s1.store ∧ s'.cur = saved ∧ s'.dead = s1.dead ∧
+    (∀ q y, s1.comps q = some y → y.dirty = false → s'.comps q = some y) ∧
+    (∀ q, c < q → s'.comps q = s1.comps q) ∧
+    (∀ v, r = .ok v → ∃ y, s'.comps c = some y ∧ y.dirty = false ∧ y.value = some v ∧ y.evals = x.evals + 1) ∧
+    (∀ e, r = .err e →
+      ∃ y, s'.comps c = some y ∧ y.first = true ∧ y.dirty = true ∧ DenFail s' y.tree ∧ y.evals = x.evals + 1) := by
   have hSc' : (fun q => S q ∨ q = c) c := Or.inr rfl
   obtain ⟨inv2, se2, st2, cur2, dead2, oth2, hc2⟩ := removeParents_spec w inv hSc' hx
   have hxd : x.dirty = true := by
@@ -1247,27 +1474,49 @@ theorem evalBody_spec {rec : Rec} (ih : IH rec) (c : Nat) (S : Nat → Prop) (hS
   | none => simp [he] at h
   | some res =>
     obtain ⟨s4, r4⟩ := res
-    obtain ⟨hok, hnn⟩ := evalTree_spec ih c S hSc hSlt x.tree (w.pure c x hx) s3 s4 r4
+    obtain ⟨ps, x4, inv4, se4, hst4, hcur4, hdead4, hk4, hab4, hc4, hx4, hmem4, hokp, herrp⟩ :=
+      evalTree_spec ih c S hSc hSlt x.tree (w.pure c x hx) s3 s4 r4
       { x with parents := [], evals := x.evals + 1 } [] (w.ranked c x hx)
-      ((w.obsKeys c x hx).mono fun k hk hs => hk ((se3.isSlot k).mp hs)) w3 inv3 hcur3 hx3 (fun e => by simp)
+      ((w.obsKind c x hx).mono fun k hk => by rw [se3.kindAt]; exact hk) w3 inv3 hcur3 hx3 (fun e => by simp)
       (fun e he => by simp at he) he
     rw [he] at h
+    have hx4t : x4.tree = x.tree := by rw [hx4]
+    have hx4f : x4.first = false := by rw [hx4]; exact hfirst
+    have hx4e : x4.evals = x.evals + 1 := by rw [hx4]
+    have hx4d : x4.dirty = true := by rw [hx4]; exact hxd
+    have hkeep : ∀ q y, s1.comps q = some y → y.dirty = false → ∀ z, (s4.setComp c z).comps q = some y := by
+      intro q y hy hd z
+      have hq : q ≠ c := by intro e; subst e; rw [hx] at hy; cases hy; simp [hxd] at hd
+      rw [setComp_ne _ _ hq]
+      exact hk4 q y (by rw [hoth3 q hq]; exact hy) hd
+    have habove : ∀ q, c < q → ∀ z, (s4.setComp c z).comps q = s1.comps q := by
+      intro q hq z
+      have hq' : q ≠ c := by omega
+      rw [setComp_ne _ _ hq', hab4 q hq, hoth3 q hq']
     cases r4 with
     | err e =>
       simp only at h
       injection h with h; injection h with h1 h2; subst h1 h2
-      exact ⟨fun v hv => (by cases hv), hnn⟩
+      obtain ⟨hpre, hdf⟩ := herrp e rfl
+      have hmf : markFailed s4 c = s4.setComp c { x4 with first := true } := by simp [markFailed, hc4]
+      rw [hmf]
+      have sef : StaticEq s4 (leave saved (s4.setComp c { x4 with first := true })) := by
+        have := StaticEq.of_setComp (s := s4) (x' := { x4 with first := true }) hc4 rfl rfl rfl
+        exact ⟨this.progs, this.decls, this.comps⟩
+      refine ⟨?_, (se3.trans se4).trans sef, hst4.trans hst3, rfl, hdead4.trans hdead3,
+        fun q y hy hd => hkeep q y hy hd _, fun q hq => habove q hq _, fun v hv => (by cases hv), fun e' he' => ?_⟩
+      · exact (Inv.fail (saved := saved) inv4 hSc hc4 (by rw [hx4t]; exact hpre) (fun e => by simpa using hmem4 e)
+          hsaved).congr rfl rfl rfl (fun p hp => hsaved p hp)
+      · refine ⟨_, setComp_same _ _ _, rfl, hx4d, ?_, hx4e⟩
+        have hdf4 : DenFail s4 x4.tree := by rw [hx4t]; exact hdf
+        exact DenFail.congr (s := s4) (s' := leave saved (s4.setComp c { x4 with first := true })) rfl sef hdf4
     | ok v =>
       simp only at h
-      obtain ⟨ps, x4, hp, inv4, se4, hst4, hcur4, hdead4, hk4, hab4, hc4, hx4, hmem4, hcurr4⟩ := hok v rfl
+      obtain ⟨hp, hcurr4⟩ := hokp v rfl
       simp only [hc4] at h
       injection h with h; injection h with h1 h2; subst h1 h2
-      refine ⟨fun v' hv' => ?_, by simp⟩
-      injection hv' with hv'; subst hv'
-      have hx4t : x4.tree = x.tree := by rw [hx4]
-      have hx4f : x4.first = false := by rw [hx4]; exact hfirst
-      have hx4e : x4.evals = x.evals + 1 := by rw [hx4]
-      refine ⟨?_, ?_, hst4.trans hst3, rfl, hdead4.trans hdead3, ?_, ?_, ?_⟩
+      refine ⟨?_, ?_, hst4.trans hst3, rfl, hdead4.trans hdead3,
+        fun q y hy hd => hkeep q y hy hd _, fun q hq => habove q hq _, fun v' hv' => ?_, fun e he => by cases he⟩
       · exact (Inv.finish (saved := saved) inv4 hSc hc4 hx4f (by rw [hx4t]; exact hp) (fun e => by simpa using hmem4 e)
           (fun e he => hcurr4 e (by simpa using (hmem4 e).mpr he)) hsaved).congr rfl rfl rfl
           (fun p hp => hsaved p hp)
@@ -1275,28 +1524,20 @@ theorem evalBody_spec {rec : Rec} (ih : IH rec) (c : Nat) (S : Nat → Prop) (hS
           have := StaticEq.of_setComp (s := s4) (x' := { x4 with value := some v, dirty := false }) hc4 rfl rfl rfl
           exact ⟨this.progs, this.decls, this.comps⟩
         exact (se3.trans se4).trans this
-      · exact ⟨_, setComp_same _ _ _, rfl, rfl, hx4e⟩
-      · intro q y hy hd
-        have hq : q ≠ c := by intro e; subst e; rw [hx] at hy; cases hy; simp [hxd] at hd
-        show (s4.setComp c _).comps q = some y
-        rw [setComp_ne _ _ hq]
-        exact hk4 q y (by rw [hoth3 q hq]; exact hy) hd
-      · intro q hq
-        have hq' : q ≠ c := by omega
-        show (s4.setComp c _).comps q = _
-        rw [setComp_ne _ _ hq', hab4 q hq, hoth3 q hq']
-
+      · injection hv' with hv'; subst hv'
+        exact ⟨_, setComp_same _ _ _, rfl, rfl, hx4e⟩
 
 /-- `Computed.__call__` -/
 theorem callC_spec {rec : Rec} (ih : IH rec) (c : Nat) (S : Nat → Prop) (hSc : ¬ S c) (hSlt : ∀ q, S q → c < q)
     {s s' : St} {r : R} {x : Comp} (w : Stat s) (inv : Inv S NoP s) (hx : s.comps c = some x)
     (h : callC rec c x s = some (s', r)) :
-    (∀ v, r = .ok v → Inv S NoP s' ∧ StaticEq s s' ∧ s'.store = s.store ∧ s'.cur = s.cur ∧ s'.dead = s.dead ∧
-      (∃ y, s'.comps c = some y ∧ y.dirty = false ∧ y.value = some v ∧ Justified x s' y) ∧
-      (∀ q y, s.comps q = some y → y.dirty = false → s'.comps q = some y) ∧
-      (∀ q, c < q → s'.comps q = s.comps q) ∧
+    Inv S NoP s' ∧ StaticEq s s' ∧ s'.store = s.store ∧ s'.cur = s.cur ∧ s'.dead = s.dead ∧
+    (∀ q y, s.comps q = some y → y.dirty = false → s'.comps q = some y) ∧
+    (∀ q, c < q → s'.comps q = s.comps q) ∧
+    (∀ v, r = .ok v → (∃ y, s'.comps c = some y ∧ y.dirty = false ∧ y.value = some v ∧ Justified x s' y) ∧
       (x.dirty = false → x.value = some v)) ∧
-    r ≠ .err .noneVal := by
+    (∀ e, r = .err e →
+      ∃ y, s'.comps c = some y ∧ y.first = true ∧ y.dirty = true ∧ DenFail s' y.tree ∧ Justified x s' y) := by
   unfold callC at h
   by_cases hd : x.dirty = false
   · -- served from the cache
@@ -1309,33 +1550,34 @@ theorem callC_spec {rec : Rec} (ih : IH rec) (c : Nat) (S : Nat → Prop) (hSc :
     obtain ⟨v0, ps, hv0, _, _⟩ := hf2 hf
     rw [hv0] at h
     injection h with h; injection h with h1 h2; subst h1 h2
-    refine ⟨fun v hv => ?_, by simp⟩
+    refine ⟨inv, StaticEq.refl s, rfl, rfl, rfl, fun _ _ h _ => h, fun _ _ => rfl, fun v hv => ?_, fun e he => by cases he⟩
     injection hv with hv; subst hv
-    exact ⟨inv, StaticEq.refl s, rfl, rfl, rfl, ⟨x, hx, hd, hv0, Or.inl rfl⟩, fun _ _ h _ => h, fun _ _ => rfl,
-      fun _ => hv0⟩
+    exact ⟨⟨x, hx, hd, hv0, Or.inl rfl⟩, fun _ => hv0⟩
   · have hd' : x.dirty = true := by cases hxd : x.dirty <;> simp_all
     rw [if_neg (by simp [hd'])] at h
     have invS' : Inv (fun q => S q ∨ q = c) NoP s := inv.push hx hd'
     have hsaved : ∀ p, s.cur = some p → S p := inv.curStack
     by_cases hf : x.first = true
-    · -- first evaluation: no pre-check
+    · -- first evaluation (also after one that raised): no pre-check
       rw [if_pos hf] at h
       have inv0 : Inv (fun q => S q ∨ q = c) NoP (s.setComp c { x with first := false }) :=
         invS'.update_comp hx rfl rfl (fun _ => hd') (fun h' => absurd (Or.inr rfl) h') rfl
           (fun p v hp => invS'.parents c x hx p v hp) (fun p v hp => ⟨v, hp⟩) (fun hd0 => by simp [hd'] at hd0)
           (fun v hv hdd => ⟨hv, hdd⟩)
       have se0 : StaticEq s (s.setComp c { x with first := false }) := StaticEq.of_setComp hx rfl rfl rfl
-      obtain ⟨hok, hnn⟩ := evalBody_spec ih c S hSc hSlt (x := { x with first := false }) (w.of_staticEq se0) inv0
+      obtain ⟨i1, i2, i3, i4, i5, i7, i8, hok, herr⟩ :=
+        evalBody_spec ih c S hSc hSlt (x := { x with first := false }) (w.of_staticEq se0) inv0
         (setComp_same _ _ _) rfl hsaved h
-      refine ⟨fun v hv => ?_, hnn⟩
-      obtain ⟨i1, i2, i3, i4, i5, ⟨y, hy, hyd, hyv, hye⟩, i7, i8⟩ := hok v hv
-      refine ⟨i1, se0.trans i2, i3, i4, i5, ⟨y, hy, hyd, hyv, Or.inr ⟨hye, hd', Or.inl hf⟩⟩, ?_, ?_,
-        fun h' => by simp [hd'] at h'⟩
+      refine ⟨i1, se0.trans i2, i3, i4, i5, ?_, ?_, fun v hv => ?_, fun e he => ?_⟩
       · intro q y0 hy0 hd0
         have hq : q ≠ c := by intro e; subst e; rw [hx] at hy0; cases hy0; simp [hd'] at hd0
         exact i7 q y0 (by rw [setComp_ne _ _ hq]; exact hy0) hd0
       · intro q hq
         rw [i8 q hq, setComp_ne _ _ (by omega)]
+      · obtain ⟨y, hy, hyd, hyv, hye⟩ := hok v hv
+        exact ⟨⟨y, hy, hyd, hyv, Or.inr ⟨hye, hd', Or.inl hf⟩⟩, fun h' => by simp [hd'] at h'⟩
+      · obtain ⟨y, hy, hyf, hyd, hdf, hye⟩ := herr e he
+        exact ⟨y, hy, hyf, hyd, hdf, Or.inr ⟨hye, hd', Or.inl hf⟩⟩
     · have hf' : x.first = false := by cases hxf : x.first <;> simp_all
       rw [if_neg hf] at h
       have hxx : ({ x with first := false } : Comp) = x := by cases x; simp_all
@@ -1351,17 +1593,17 @@ theorem callC_spec {rec : Rec} (ih : IH rec) (c : Nat) (S : Nat → Prop) (hSc :
       have hpre := fun (s1 : St) (r1 : Except Err Bool)
           (hp : precheck rec x.parents { (s.setComp c x) with cur := none } = some (s1, r1)) =>
         precheck_spec ih c S hSlt x.parents _ s1 r1
-          (fun e he c' hc' => (inv.parents c x hx e.1 e.2 he).1 c' hc') (w.of_staticEq se0') inv0' rfl hp
+          (fun e he => ⟨fun c' hc' => (inv.parents c x hx e.1 e.2 he).1 c' hc', by
+            obtain ⟨_, _, k, hk, _, _⟩ := inv.parents c x hx e.1 e.2 he
+            exact ⟨k, by rw [se0'.keyOf]; exact hk⟩⟩) (w.of_staticEq se0') inv0' rfl hp
       split at h
       · cases h
       · rename_i s1 e hp
-        obtain ⟨_, hnn⟩ := hpre s1 _ hp
-        injection h with h; injection h with h1 h2; subst h1 h2
-        refine ⟨fun v hv => (by cases hv), ?_⟩
-        intro he; injection he with he; subst he; exact hnn rfl
+        obtain ⟨b, hb, _⟩ := hpre s1 _ hp
+        cases hb
       · rename_i s1 hp
-        obtain ⟨hok, _⟩ := hpre s1 _ hp
-        obtain ⟨i1, i2, i3, i4, i5, i6, i7, i8, i9⟩ := hok true rfl
+        obtain ⟨b, hb, i1, i2, i3, i4, i5, i6, i7, i8, i9⟩ := hpre s1 _ hp
+        injection hb with hb; subst hb
         have hc1 : s1.comps c = some x := by
           rw [i7 c (Nat.le_refl c)]; exact setComp_same _ _ _
         have inv1 : Inv S NoP { s1 with cur := s.cur } := i1.congr rfl rfl rfl hsaved
@@ -1377,19 +1619,21 @@ theorem callC_spec {rec : Rec} (ih : IH rec) (c : Nat) (S : Nat → Prop) (hSc :
           rw [i7 q (by omega)]
           show (s.setComp c x).comps q = _
           rw [setComp_ne _ _ (by omega)]
-        obtain ⟨hok2, hnn2⟩ := evalBody_spec ih c S hSc hSlt (w.of_staticEq se1) (inv1.push (c := c) hc1 hd')
-          (by exact hc1) hf' hsaved h
-        refine ⟨fun v hv => ?_, hnn2⟩
-        obtain ⟨j1, j2, j3, j4, j5, ⟨y, hy, hyd, hyv, hye⟩, j7, j8⟩ := hok2 v hv
+        obtain ⟨j1, j2, j3, j4, j5, j7, j8, hok, herr⟩ :=
+          evalBody_spec ih c S hSc hSlt (w.of_staticEq se1) (inv1.push (c := c) hc1 hd') (by exact hc1) hf' hsaved h
         obtain ⟨e0, he0, hst0⟩ := i9 rfl
-        exact ⟨j1, se1.trans j2, j3.trans i3, j4, j5.trans i5,
-          ⟨y, hy, hyd, hyv, Or.inr ⟨hye, hd', Or.inr ⟨e0, he0, Stale.keep (s := s1) j3 j7 hst0⟩⟩⟩,
+        have hstale : ∃ e ∈ x.parents, Stale s' e :=
+          ⟨e0, he0, Stale.keep (s := s1) j3 ⟨j2.progs, j2.decls, j2.comps⟩ j7 hst0⟩
+        refine ⟨j1, se1.trans j2, j3.trans i3, j4, j5.trans i5,
           fun q y0 hy0 hd0 => j7 q y0 (hkeep1 q y0 hy0 hd0) hd0,
-          fun q hq => (j8 q hq).trans (hab1 q hq), fun h' => by simp [hd'] at h'⟩
-
+          fun q hq => (j8 q hq).trans (hab1 q hq), fun v hv => ?_, fun e he => ?_⟩
+        · obtain ⟨y, hy, hyd, hyv, hye⟩ := hok v hv
+          exact ⟨⟨y, hy, hyd, hyv, Or.inr ⟨hye, hd', Or.inr hstale⟩⟩, fun h' => by simp [hd'] at h'⟩
+        · obtain ⟨y, hy, hyf, hyd, hdf, hye⟩ := herr e he
+          exact ⟨y, hy, hyf, hyd, hdf, Or.inr ⟨hye, hd', Or.inr hstale⟩⟩
       · rename_i s1 hp
-        obtain ⟨hok, _⟩ := hpre s1 _ hp
-        obtain ⟨i1, i2, i3, i4, i5, i6, i7, i8, i9⟩ := hok false rfl
+        obtain ⟨b, hb, i1, i2, i3, i4, i5, i6, i7, i8, i9⟩ := hpre s1 _ hp
+        injection hb with hb; subst hb
         have hc1 : s1.comps c = some x := by
           rw [i7 c (Nat.le_refl c)]; exact setComp_same _ _ _
         have inv1 : Inv S NoP { s1 with cur := s.cur } := i1.congr rfl rfl rfl hsaved
@@ -1411,16 +1655,13 @@ theorem callC_spec {rec : Rec} (ih : IH rec) (c : Nat) (S : Nat → Prop) (hSc :
         subst h1
         have hr : r = .ok v0 := by rw [← h2, hv0]
         subst hr
-        refine ⟨fun v hv => ?_, by simp⟩
-        injection hv with hv; subst hv
         have invf : Inv S NoP (s1.setComp c { x with dirty := false }) :=
           i1.update_comp hc1 rfl rfl (fun h' => absurd h' hSc)
             (fun _ => ⟨fun h' => by simp [hf'] at h', fun _ => ⟨v0, ps, hv0, hpath, hmem⟩⟩) rfl
             (fun p v hp => i1.parents c x hc1 p v hp) (fun p v hp => ⟨v, hp⟩)
             (fun _ p v hp _ => i8 rfl (p, v) hp)
             (fun v hv hdd => by rcases hdd with hdd | hdd; simp [hd'] at hdd; exact absurd hdd (by simp [NoP]))
-        refine ⟨invf.congr rfl rfl rfl hsaved, ?_, i3, rfl, i5, ⟨_, setComp_same _ _ _, rfl, hv0, Or.inl rfl⟩, ?_, ?_,
-          fun h' => by simp [hd'] at h'⟩
+        refine ⟨invf.congr rfl rfl rfl hsaved, ?_, i3, rfl, i5, ?_, ?_, fun v hv => ?_, fun e he => (by cases he)⟩
         · have := (se0'.trans i2).trans (StaticEq.of_setComp (x' := { x with dirty := false }) hc1 rfl rfl rfl)
           exact ⟨this.progs, this.decls, this.comps⟩
         · intro q y hy hdq
@@ -1430,34 +1671,40 @@ theorem callC_spec {rec : Rec} (ih : IH rec) (c : Nat) (S : Nat → Prop) (hSc :
         · intro q hq
           show (s1.setComp c _).comps q = _
           rw [setComp_ne _ _ (by omega)]; exact hab1 q hq
+        · injection hv with hv; subst hv
+          exact ⟨⟨_, setComp_same _ _ _, rfl, hv0, Or.inl rfl⟩, fun h' => by simp [hd'] at h'⟩
 
 
 /-- `Computable.__get__` -/
 theorem getC_spec {rec : Rec} (ih : IH rec) (c : Nat) (S : Nat → Prop) (hSc : ¬ S c) (hSlt : ∀ q, S q → c < q)
     {s s' : St} {r : R} (w : Stat s) (inv : Inv S NoP s) (h : getC rec c s = some (s', r)) :
-    (∀ v, r = .ok v → PostGet S c s s' v) ∧ r ≠ .err .noneVal := by
+    (∀ v, r = .ok v → PostGet S c s s' v) ∧ (∀ e, r = .err e → PostErr S c s s') := by
   unfold getC at h
   cases hx : s.comps c with
   | none =>
     simp only [hx] at h
     injection h with h; injection h with h1 h2; subst h1 h2
-    exact ⟨fun v hv => (by cases hv), by simp⟩
+    exact ⟨fun v hv => (by cases hv), fun e _ =>
+      ⟨inv, StaticEq.refl s, rfl, rfl, rfl, Or.inl hx, fun _ _ h _ => h, fun _ _ => rfl⟩⟩
   | some x =>
     simp only [hx] at h
     cases hcall : callC rec c x s with
     | none => simp [hcall] at h
     | some res =>
       obtain ⟨s1, r1⟩ := res
-      obtain ⟨hok1, hnn1⟩ := callC_spec ih c S hSc hSlt w inv hx hcall
+      obtain ⟨inv1, se1, hst1, hcur1, hdead1, hkeep1, hab1, hok1, herr1⟩ := callC_spec ih c S hSc hSlt w inv hx hcall
       rw [hcall] at h
       cases r1 with
       | err e =>
         simp only at h
         injection h with h; injection h with h1 h2; subst h1 h2
-        exact ⟨fun v hv => (by cases hv), hnn1⟩
+        refine ⟨fun v hv => (by cases hv), fun e' _ => ?_⟩
+        obtain ⟨y, hy, hyf, hyd, hdf, hj⟩ := herr1 e rfl
+        exact ⟨inv1, se1, hst1, hcur1, hdead1,
+          Or.inr ⟨y, hy, hyf, hyd, hdf, fun x0 hx0 => by rw [hx] at hx0; cases hx0; exact hj⟩, hkeep1, hab1⟩
       | ok new =>
         simp only at h
-        obtain ⟨inv1, se1, hst1, hcur1, hdead1, ⟨y1, hy1, hyd1, hyv1, hyj1⟩, hkeep1, hab1, hcl1⟩ := hok1 new rfl
+        obtain ⟨⟨y1, hy1, hyd1, hyv1, hyj1⟩, hcl1⟩ := hok1 new rfl
         have w1 : Stat s1 := w.of_staticEq se1
         -- what happens after `_add_parent` (on the enclosing evaluation, if any) succeeded
         have tail : ∀ s2, Inv S NoP s2 → StaticEq s1 s2 → s2.store = s1.store → s2.cur = s1.cur → s2.dead = s1.dead →
@@ -1470,7 +1717,7 @@ theorem getC_spec {rec : Rec} (ih : IH rec) (c : Nat) (S : Nat → Prop) (hSc : 
               | some (s3, .err e) => some (s3, .err e)
               | some (s3, .ok _) => some (s3, .ok new)
             else some (s2, R.ok new)) = some (s', r) →
-            (∀ v, r = .ok v → PostGet S c s s' v) ∧ r ≠ .err .noneVal := by
+            (∀ v, r = .ok v → PostGet S c s s' v) ∧ (∀ e, r = .err e → PostErr S c s s') := by
           intro s2 inv2 se2 hst2 hcur2 hdead2 hoth2 hpar2 h
           have w2 : Stat s2 := w1.of_staticEq se2
           have hc2 : s2.comps c = some y1 := by
@@ -1504,7 +1751,7 @@ theorem getC_spec {rec : Rec} (ih : IH rec) (c : Nat) (S : Nat → Prop) (hSc : 
               · exact Or.inl hj
               · refine Or.inr ⟨hj1, hj2, hj3.imp id ?_⟩
                 rintro ⟨e0, he0, hst0⟩
-                refine ⟨e0, he0, Stale.keep (s := s1) (by rw [hs3, hst2]) ?_ hst0⟩
+                refine ⟨e0, he0, Stale.keep (s := s1) (by rw [hs3, hst2]) (se2.trans e3) ?_ hst0⟩
                 intro q y hy hd
                 rw [hc3, hoth2 q ?_]; exact hy
                 intro e
@@ -1564,12 +1811,12 @@ theorem getC_spec {rec : Rec} (ih : IH rec) (c : Nat) (S : Nat → Prop) (hSc : 
               rw [hrec', hn3] at h
               simp only at h
               injection h with h; injection h with h1 h2; subst h1 h2
-              refine ⟨fun v hv => ?_, by simp⟩
+              refine ⟨fun v hv => ?_, fun e he => by cases he⟩
               injection hv with hv; subst hv
               exact post s3 i3 e3 hc3 hs3 hcu3 hd3
           · rw [if_neg hch] at h
             injection h with h; injection h with h1 h2; subst h1 h2
-            refine ⟨fun v hv => ?_, by simp⟩
+            refine ⟨fun v hv => ?_, fun e he => by cases he⟩
             injection hv with hv; subst hv
             exact post s2 inv2 (StaticEq.refl s2) rfl rfl rfl rfl
         cases hc : s1.cur with
@@ -1584,9 +1831,8 @@ theorem getC_spec {rec : Rec} (ih : IH rec) (c : Nat) (S : Nat → Prop) (hSc : 
           rw [ha] at h
           cases r2 with
           | err e =>
-            simp only at h
-            injection h with h; injection h with h1 h2; subst h1 h2
-            exact ⟨fun v hv => (by cases hv), addParent_not_noneVal w1.regs ha⟩
+            exact (addParent_ok w1 hxp (r := .comp c) (k := (y1.owner, y1.name)) (by simp [St.keyOf, hy1])
+              (kindAt_names (w1.slotKind c y1 hy1)) ha).elim
           | ok u =>
             simp only at h
             obtain ⟨i1, i2, i3, i4, i5, i6, i7⟩ := addParent_spec w1 inv1 hSp hxp (r := .comp c)
@@ -1883,56 +2129,6 @@ theorem assign_spec (f : Nat) {k : Key} {v : Int} {s s' : St} {r : R} (w : Stat 
         · exact ⟨_, h', rfl⟩
 
 
-/-! ### what a function returns "if evaluated right now" -/
-
-/-- the denotation of a pure function in state `s`: Observables are looked up in the store, Computables are
-    evaluated by running *their* function (not by looking at any cache) -/
-inductive Den (s : St) : Tree → Int → Prop
-  | ret (v : Int) : Den s (.ret v) v
-  | read (k : Key) (cont : Int → Tree) (v : Int) (h : Den s (cont (s.store k)) v) : Den s (.read k cont) v
-  | readC (c : Nat) (cont : Int → Tree) (x : Comp) (a v : Int) (hx : s.comps c = some x) (ha : Den s x.tree a)
-      (h : Den s (cont a) v) : Den s (.readC c cont) v
-
-theorem pathR_den {s : St} {t : Tree} {ps : List (PRef × Int)} {v : Int} (hp : PathR t ps v)
-    (hobs : ∀ k x, (PRef.obs k, x) ∈ ps → s.store k = x)
-    (hcomp : ∀ c x, (PRef.comp c, x) ∈ ps → ∃ y, s.comps c = some y ∧ Den s y.tree x) : Den s t v := by
-  induction hp with
-  | ret v => exact .ret v
-  | read k cont x ps v _ ih =>
-    have hx : s.store k = x := hobs k x (by simp)
-    subst hx
-    exact .read k cont v (ih (fun k' x' h' => hobs k' x' (by simp [h'])) (fun c x' h' => hcomp c x' (by simp [h'])))
-  | readC c cont x ps v _ ih =>
-    obtain ⟨y, hy, hd⟩ := hcomp c x (by simp)
-    exact .readC c cont y x v hy hd
-      (ih (fun k' x' h' => hobs k' x' (by simp [h'])) (fun c' x' h' => hcomp c' x' (by simp [h'])))
-
-/-- **a clean Computed holds the value its function would return now** -/
-theorem clean_den {s : St} (inv : Inv NoS NoP s) :
-    ∀ c x, s.comps c = some x → x.dirty = false → ∃ v, x.value = some v ∧ Den s x.tree v := by
-  intro c
-  induction c using Nat.strongRecOn with
-  | _ c ih =>
-    intro x hx hd
-    obtain ⟨e1, e2⟩ := inv.evald c x hx (by simp [NoS])
-    have hf : x.first = false := by
-      cases hxf : x.first with
-      | false => rfl
-      | true => have := (e1 hxf).1; simp [hd] at this
-    obtain ⟨v, ps, hv, hp, hmem⟩ := e2 hf
-    refine ⟨v, hv, pathR_den hp ?_ ?_⟩
-    · intro k a ha
-      exact inv.current c x hx hd (.obs k) a ((hmem _).mp ha)
-    · intro c' a ha
-      have hpar := (hmem _).mp ha
-      obtain ⟨y, hy, hyv, hyd⟩ := inv.current c x hx hd (.comp c') a hpar
-      have hlt : c' < c := (inv.parents c x hx (.comp c') a hpar).1 c' rfl
-      rcases hyd with hyd | hyd
-      · obtain ⟨v', hv', hden⟩ := ih c' hlt y hy hyd
-        rw [hyv] at hv'; cases hv'
-        exact ⟨y, hy, hden⟩
-      · exact absurd hyd (by simp [NoP])
-
 /-! ### the top-level operations -/
 
 /-- conditions under which `owner.name = Computed(func)` is a definition the theorems speak about -/
@@ -1997,7 +2193,7 @@ theorem define_pre {s : St} {c o n : Nat} {t : Tree} (w : Stat s) (inv : Inv NoS
   · intro q y hy _
     by_cases hq : q = c
     · subst hq; rw [setComp_same] at hy; cases hy
-      exact ⟨fun _ => ⟨rfl, rfl⟩, fun h => by simp at h⟩
+      exact ⟨fun _ => ⟨rfl, [], .nil _, fun e => Iff.rfl⟩, fun h => by simp at h⟩
     · rw [setComp_ne _ _ hq] at hy; exact inv.evald q y hy (by simp [NoS])
   · intro q y hy p v hp
     by_cases hq : q = c
@@ -2019,18 +2215,18 @@ theorem define_pre {s : St} {c o n : Nat} {t : Tree} (w : Stat s) (inv : Inv NoS
           exact absurd ok.slotKind (by
             intro hcomp
             -- find the key among the reads of `q`'s function
-            have hk0 : ∀ (t' : Tree) ps v', ObsKeys (fun k => s.kindAt k = some .obs) t' → PathR t' ps v' →
+            have hk0 : ∀ (t' : Tree) ps, ObsKeys (fun k => s.kindAt k = some .obs) t' → Prefix t' ps →
                 ∀ k x, (PRef.obs k, x) ∈ ps → s.kindAt k = some .obs := by
-              intro t' ps v' hot hpr
+              intro t' ps hot hpr
               induction hpr with
-              | ret _ => intro k x hm; simp at hm
-              | read k0 cont x0 ps0 v0 _ ih =>
+              | nil _ => intro k x hm; simp at hm
+              | read k0 cont x0 ps0 _ ih =>
                 cases hot with | read _ _ hk00 hc00 =>
                 intro k x hm
                 rcases List.mem_cons.mp hm with hm | hm
                 · injection hm with hm1 _; injection hm1 with hm1; subst hm1; exact hk00
                 · exact ih (hc00 _) k x hm
-              | readC c0 cont x0 ps0 v0 _ ih =>
+              | readC c0 cont x0 ps0 _ ih =>
                 cases hot with | readC _ _ hc00 =>
                 intro k x hm
                 rcases List.mem_cons.mp hm with hm | hm
@@ -2038,9 +2234,11 @@ theorem define_pre {s : St} {c o n : Nat} {t : Tree} (w : Stat s) (inv : Inv NoS
                 · exact ih (hc00 _) k x hm
             by_cases hyf : y.first = true
             · obtain ⟨e1, _⟩ := inv.evald q y hy (by simp [NoS])
-              rw [(e1 hyf).2] at hp; simp at hp
+              obtain ⟨_, ps, hpr, hmem⟩ := e1 hyf
+              have := hk0 y.tree ps (w.obsKind q y hy) hpr (o, n) v ((hmem _).mpr hp)
+              rw [hcomp] at this; cases this
             · obtain ⟨v', ps, _, hpr, hmem⟩ := e2 (by cases hh : y.first <;> simp_all)
-              have := hk0 y.tree ps v' (w.obsKind q y hy) hpr (o, n) v ((hmem _).mpr hp)
+              have := hk0 y.tree ps (w.obsKind q y hy) hpr.prefix (o, n) v ((hmem _).mpr hp)
               rw [hcomp] at this; cases this))
   · intro o' n' t' q hq
     obtain ⟨ht, y, hy, p, v, hp, hk⟩ := inv.subsOf o' n' t' q hq
@@ -2069,31 +2267,54 @@ inductive OpOK (s : St) : Op → Prop
   | unobserve (k : Key) (h : Nat) : OpOK s (.unobserve k h)
   | drop (h : Nat) : OpOK s (.drop h)
 
+/-- reading a Computable at top level, whether the read returns or raises -/
+theorem read_spec_all (fuel : Nat) {s s' : St} {c : Nat} {r : R} (g : Good s)
+    (h : exec fuel (.readC c) s = some (s', r)) :
+    Good s' ∧ s'.store = s.store ∧ StaticEq s s' ∧
+    (∀ v, r = .ok v → ∃ x, s'.comps c = some x ∧ x.dirty = false ∧ x.value = some v ∧ Den s' x.tree v) ∧
+    (∀ e, r = .err e → s.comps c = none ∨
+      ∃ x, s'.comps c = some x ∧ x.first = true ∧ x.dirty = true ∧ DenFail s' x.tree) := by
+  obtain ⟨hok, herr⟩ := (exec_IH fuel).get c s s' r NoS g.stat g.inv (by simp [NoS]) (fun q hq => by simp [NoS] at hq) h
+  cases r with
+  | ok v =>
+    have pg := hok v rfl
+    obtain ⟨y, hy, hyd, hyv, _⟩ := pg.clean
+    obtain ⟨v', hv', hden⟩ := clean_den pg.inv c y hy hyd
+    rw [hyv] at hv'; cases hv'
+    refine ⟨⟨g.stat.of_staticEq pg.stat, pg.inv, pg.cur.trans g.cur⟩, pg.store, pg.stat, fun v' hv' => ?_,
+      fun e he => (by cases he)⟩
+    injection hv' with hv'; subst hv'
+    exact ⟨y, hy, hyd, hyv, hden⟩
+  | err e =>
+    have pe := herr e rfl
+    refine ⟨⟨g.stat.of_staticEq pe.stat, pe.inv, pe.cur.trans g.cur⟩, pe.store, pe.stat, fun v hv => (by cases hv),
+      fun _ _ => ?_⟩
+    rcases pe.failed with hnone | ⟨y, hy, hyf, hyd, hdf, _⟩
+    · exact Or.inl hnone
+    · exact Or.inr ⟨y, hy, hyf, hyd, hdf⟩
+
 /-- reading a Computable at top level -/
 theorem read_spec (fuel : Nat) {s s' : St} {c : Nat} {v : Int} (g : Good s)
     (h : exec fuel (.readC c) s = some (s', .ok v)) :
     Good s' ∧ s'.store = s.store ∧ StaticEq s s' ∧
     ∃ x, s'.comps c = some x ∧ x.dirty = false ∧ x.value = some v ∧ Den s' x.tree v := by
-  obtain ⟨hok, _⟩ := (exec_IH fuel).get c s s' (.ok v) NoS g.stat g.inv (by simp [NoS]) (fun q hq => by simp [NoS] at hq) h
-  have pg := hok v rfl
-  obtain ⟨y, hy, hyd, hyv, _⟩ := pg.clean
-  obtain ⟨v', hv', hden⟩ := clean_den pg.inv c y hy hyd
-  rw [hyv] at hv'; cases hv'
-  exact ⟨⟨g.stat.of_staticEq pg.stat, pg.inv, pg.cur.trans g.cur⟩, pg.store, pg.stat, y, hy, hyd, hyv, hden⟩
+  obtain ⟨g', hst, se, hok, _⟩ := read_spec_all fuel g h
+  exact ⟨g', hst, se, hok v rfl⟩
 
 theorem mem_dirty_append_user (q h : Nat) (l : List Sub) : Sub.dirty q ∈ l ++ [Sub.user h] ↔ Sub.dirty q ∈ l := by
   simp
 
-theorem step_good (fuel : Nat) {s s' : St} {op : Op} {v : Int} (g : Good s) (ok : OpOK s op)
-    (h : step fuel s op = some (s', .ok v)) : Good s' := by
+/-- every top-level operation — returning or raising — leaves a quiescent state in which the invariant holds -/
+theorem step_good (fuel : Nat) {s s' : St} {op : Op} {r : R} (g : Good s) (ok : OpOK s op)
+    (h : step fuel s op = some (s', r)) : Good s' := by
   cases ok with
   | define c o n t hd =>
     obtain ⟨w0, i0⟩ := define_pre g.stat g.inv hd
-    exact (read_spec fuel ⟨w0, i0, g.cur⟩ h).1
+    exact (read_spec_all fuel ⟨w0, i0, g.cur⟩ h).1
   | assign k x =>
     obtain ⟨_, i, se, hc, _, _⟩ := assign_spec fuel g.stat g.inv g.cur h
     exact ⟨g.stat.of_staticEq se, i, hc⟩
-  | read c => exact (read_spec fuel g h).1
+  | read c => exact (read_spec_all fuel g h).1
   | observe k hh =>
     simp only [step] at h
     rcases Reg.observe_spec (g.stat.regs k.1).wf (.one k.2) (.one .change) (Sub.user hh) with
@@ -2113,12 +2334,12 @@ theorem step_good (fuel : Nat) {s s' : St} {op : Op} {v : Int} (g : Good s) (ok 
           · exact mem_dirty_append_user q hh _
           · exact Iff.rfl
         · rw [setReg_ne _ _ ho']
-    · rw [ho] at h; injection h with h; injection h with _ h2; cases h2
+    · rw [ho] at h; injection h with h; injection h with h1 _; subst h1; exact g
   | unobserve k hh =>
     simp only [step] at h
     rcases Reg.unobserve_spec (g.stat.regs k.1).wf s.alive (.one k.2) (.one .change) (Sub.user hh) with
       ⟨_, ho⟩ | ⟨_, r', ho, hdecl, hs⟩
-    · rw [ho] at h; injection h with h; injection h with _ h2; cases h2
+    · rw [ho] at h; injection h with h; injection h with h1 _; subst h1; exact g
     · rw [ho] at h
       injection h with h; injection h with h1 _; subst h1
       have se : StaticEq s (s.setReg k.1 r') := StaticEq.of_setReg hdecl
